@@ -138,6 +138,7 @@ Fixpoint macro_offset (C : list instr) (mc : macro) : option nat :=
 Definition loop_items_of (m : ubehav) (v : value) : outcome (list value) :=
   match v with
   | VList l => Ok l
+  | VStr _ t => Ok (map (fun ch => VStr false [ch]) t)
   | VUndef => if u_strictish m then Err E_UndefinedError else Ok []
   | VSilent => Ok []
   | _ => Err E_InvalidOperation
